@@ -127,6 +127,8 @@ pub struct Ctx<'a> {
     pub stats: &'a mut Stats,
     pub slot: &'a Mutex<Slot>,
     pub tier: Tier,
+    /// crash triage: every published delivery is appended here before it is executed
+    pub journal: Option<&'a Mutex<std::fs::File>>,
 }
 
 impl<'a> Ctx<'a> {
@@ -139,6 +141,13 @@ impl<'a> Ctx<'a> {
     }
     /// Publish a delivery cheaply (no JSON is built unless the watchdog fires).
     pub fn publish_raw(&self, episode: u64, bytes: &[u8], tape: &[u32]) {
+        if let Some(j) = self.journal {
+            use std::io::Write;
+            let line = J::obj().set("deliver", crate::json::hex(bytes)).set("tape", tape.to_vec()).to_string();
+            let mut f = j.lock().unwrap();
+            let _ = writeln!(f, "{line}");
+            let _ = f.flush();
+        }
         let mut s = self.slot.lock().unwrap();
         s.since = Some(Instant::now());
         s.episode = episode;
@@ -203,8 +212,14 @@ pub struct Outcome {
 
 /// Run episodes 0..n of `check` on `workers` threads.
 pub fn explore(check: &dyn Check, verif_seed: u64, tier: Tier, n: u64, workers: usize, hang_secs: u64) -> Outcome {
+    explore_range(check, verif_seed, tier, 0, n, workers, hang_secs, None)
+}
+
+/// Run episodes lo..n; with a journal, every published delivery is written out before it runs.
+#[allow(clippy::too_many_arguments)]
+pub fn explore_range(check: &dyn Check, verif_seed: u64, tier: Tier, lo: u64, n: u64, workers: usize, hang_secs: u64, journal: Option<&Mutex<std::fs::File>>) -> Outcome {
     let start = Instant::now();
-    let next = AtomicU64::new(0);
+    let next = AtomicU64::new(lo);
     // episodes above this index are skipped once a violation has been found (lowest index wins)
     let stop_after = AtomicU64::new(u64::MAX);
     let done = AtomicBool::new(false);
@@ -238,7 +253,7 @@ pub fn explore(check: &dyn Check, verif_seed: u64, tier: Tier, n: u64, workers: 
                                     s.ep_since = Some(Instant::now());
                                     s.episode = idx;
                                 }
-                                let mut ctx = Ctx { stats: &mut stats, slot: &slots[w], tier };
+                                let mut ctx = Ctx { stats: &mut stats, slot: &slots[w], tier, journal };
                                 // calls into rtcp-types are guarded inside the episode; an unwind that
                                 // reaches this point comes from the harness itself
                                 let r = crate::guard::guarded(|| check.run_episode(seed, idx, &mut ctx, &mut viols));
